@@ -846,6 +846,11 @@ func marshalPositions(desc string, k *kindInfo, v reflect.Value, want string) er
 		{"string-tag", sv.Interface(), nil, `{"F":"` + want + `"}`},
 		{"StringifyNumbers", v.Interface(), []json.Options{json.StringifyNumbers(true)}, `"` + want + `"`},
 		{"map-key", mv.Interface(), nil, `{"` + want + `":0}`},
+		// held in interfaces: the untyped fast paths format numbers themselves
+		{"any-elem", []any{v.Interface()}, nil, `[` + want + `]`},
+		{"any-member", map[string]any{"k": v.Interface()}, nil, `{"k":` + want + `}`},
+		{"any-field", struct{ A any }{v.Interface()}, nil, `{"A":` + want + `}`},
+		{"any-elem-deterministic", []any{v.Interface()}, []json.Options{json.Deterministic(true)}, `[` + want + `]`},
 	} {
 		b, err := json.Marshal(p.val, p.opts...)
 		if err != nil {
